@@ -532,7 +532,27 @@ func run1DHintCombos() {
 			return h
 		}},
 	}
-	chk.Range(fmt.Sprintf("1-D hint combinations on turned symbols: %s, MARGIN 30, height 30, scale 2, padding 5 x rotation {180 plain, 180 / 90 / 270 TRY_HARDER} x hint sets {result-point callback, row-level hints (Codabar start/end, GS1, allowed lengths), both}: the text equals the text of the upright image under the same hints", countNames(specs)), len(specs),
+	// the flag hints are switched on by PRESENCE ("doesn't matter what it maps to"): the same sets
+	// with the flags mapped to nil, to struct{}{} and to false
+	for _, fv := range []struct {
+		name string
+		v    interface{}
+	}{{"nil", nil}, {"struct{}", struct{}{}}, {"false", false}} {
+		fv := fv
+		withFlags := func(s spec, callback bool) map[gozxing.DecodeHintType]interface{} {
+			h := rowHints(s)
+			h[gozxing.DecodeHintType_RETURN_CODABAR_START_END] = fv.v
+			h[gozxing.DecodeHintType_ASSUME_GS1] = fv.v
+			if callback {
+				h[gozxing.DecodeHintType_NEED_RESULT_POINT_CALLBACK] = cb
+			}
+			return h
+		}
+		sets = append(sets,
+			hs{"row-hints/flags=" + fv.name, func(s spec) map[gozxing.DecodeHintType]interface{} { return withFlags(s, false) }},
+			hs{"callback+row-hints/flags=" + fv.name, func(s spec) map[gozxing.DecodeHintType]interface{} { return withFlags(s, true) }})
+	}
+	chk.Range(fmt.Sprintf("1-D hint combinations on turned symbols: %s, MARGIN 30, height 30, scale 2, padding 5 x rotation {180 plain, 180 / 90 / 270 TRY_HARDER} x hint sets {result-point callback, row-level hints (Codabar start/end, GS1, allowed lengths), both; the flag hints mapped to true, nil, struct{}{} and false}: the text equals the text of the upright image under the same hints", countNames(specs)), len(specs),
 		func(i int) string { return specs[i].String() },
 		func(l *mc.Local, i int) {
 			s, base, err := drawFitting(specs[i])
